@@ -443,7 +443,7 @@ func guardedAccesses(c *core.Ctx, fn *ssa.Function) []fieldAccess {
 							if b, ok := y.Call.Value.(*ssa.Builtin); ok && b.Name() == "delete" && y.Call.Args[0] == ssa.Value(x) {
 								acc.write, acc.what = true, "map delete"
 							}
-							if sc := an.StaticCallee(&y.Call); sc != nil && len(y.Call.Args) > 0 && y.Call.Args[0] == ssa.Value(x) && (writeMethods[sc.Name()] || auto && !readOnlyMethods[sc.Name()]) {
+							if sc := an.StaticCallee(&y.Call); sc != nil && len(y.Call.Args) > 0 && y.Call.Args[0] == ssa.Value(x) && (writeMethods[sc.Name()] || auto && !readOnlyMethods[sc.Name()] || receiverWriters(c)[originOf(sc)]) {
 								acc.write, acc.what = true, "call "+sc.Name()
 							}
 						case *ssa.Lookup:
